@@ -163,6 +163,8 @@ func tok(t string, r Rnd) ([]byte, error) {
 		return []byte{1}, nil
 	case "i32":
 		return []byte{32}, nil
+	case "i64":
+		return []byte{64}, nil
 	case "i127":
 		return []byte{127}, nil
 	case "i128":
